@@ -21,7 +21,7 @@ import z3
 import fsic
 import fsic.core.models as fmodels
 from loopmodel import NONE, RAISE, WARN, Outcome, Script, check_names, make_scripted, ref_solve_t
-from symx.core import Ctx, Inconclusive, PathAbort, cur
+from symx.core import Ctx, Inconclusive, PathAbort, cur, timed_check
 from symx.npshim import NpShim
 from symx.values import SArr, SBool, SFloat, SInt, fpval, model_float, model_int, to_ieee
 
@@ -318,6 +318,7 @@ def explore_config(cfg: dict) -> dict:
                     res['witness_bad'].append({'inputs': inputs, 'symbolic_impl': _pub(impl), 'concrete_impl': _pub(ci),
                                                'concrete_bad': rep['bad']})
     res['exhausted'] = ctx.exhausted
+    res['smt_samples'] = list(ctx.samples)
     res['stats'] = ctx.stats.as_dict()
     res['assumptions'] = list(ctx.assumptions)
     res['shim_calls'] = dict(_SHIM.calls)
@@ -363,7 +364,7 @@ def _ieee_witness(ctx: Ctx, path, cfg: dict, extra: list) -> Optional[dict]:
     for e in extra:
         s.add(to_ieee(e, cache))
     t0 = time.time()
-    r = str(s.check())
+    r = timed_check(s, 30.0)
     ctx.stats.solver_s += time.time() - t0
     ctx.stats.queries[r] = ctx.stats.queries.get(r, 0) + 1
     if r == 'unsat':
